@@ -39,21 +39,21 @@ func mapSection(h *H, rng *rand.Rand, n, variant int) {
 	relArg := -1
 	r := rng.Intn(10)
 	if variant == 1 {
-		switch {
-		case r < 7:
+		switch r = rng.Intn(20); {
+		case r < 16:
 			relArg = tRel
-		case r < 8:
-		case r < 9:
+		case r < 17:
+		case r < 19:
 			relArg = tRel2
 		default:
 			relArg = tX0
 		}
 	} else {
-		switch {
-		case r < 4:
+		switch r = rng.Intn(20); {
 		case r < 8:
+		case r < 17:
 			relArg = tRel
-		case r < 9:
+		case r < 18:
 			relArg = tRel2
 		default:
 			relArg = tX0
@@ -86,7 +86,7 @@ func mapSection(h *H, rng *rand.Rand, n, variant int) {
 	ops := []string{"New", "NewWith", "NewBatch", "NewBatchQ", "Get", "GetUnchecked", "Add", "Assign",
 		"Remove", "RemoveEntities", "AddBatch", "AddBatchQ", "RemoveBatch", "RemoveBatchQ"}
 	rng.Shuffle(len(ops), func(i, j int) { ops[i], ops[j] = ops[j], ops[i] })
-	for i := 0; i < 6; i++ {
+	for i := 0; i < 10; i++ {
 		ops = append(ops, ops[rng.Intn(14)])
 	}
 
@@ -96,10 +96,27 @@ func mapSection(h *H, rng *rand.Rand, n, variant int) {
 			return
 		}
 		m := fmt.Sprintf("Map%d.%s", n, op)
-		tg := p.optTarget(hasRel)
+		relInParams := hasRel && contains(params, relArg)
+		useful := relInParams
+		if op[0] == 'R' {
+			useful = hasRel && !relInParams
+		} else if op[0] == 'A' && op != "Assign" {
+			useful = hasRel // adding the relation itself, or adding to entities that have it
+		}
+		tg := p.optTarget(hasRel, useful)
+		h.tag = ""
+		if len(tg) > 0 {
+			h.tag = "+target"
+		}
 		needRel := func() {
 			if len(tg) > 0 && !hasRel {
-				panic(modelPanic("map has no relation"))
+				switch op {
+				case "New", "NewBatch", "NewBatchQ":
+					panic(modelPanic("map has no relation defined, can't set a target"))
+				case "NewWith":
+					panic(modelPanic("map has no relation defined"))
+				}
+				panic(modelPanic(fmt.Sprintf("can't set target entity: Map%d has no relation", n)))
 			}
 		}
 		switch op {
@@ -211,9 +228,14 @@ func mapSection(h *H, rng *rand.Rand, n, variant int) {
 		case "Add", "Assign":
 			e := p.pickEntityArg()
 			if rng.Intn(5) > 0 {
-				if x, ok := p.pickWhere(func(r *rec) bool { return hasNone(r, params) && noConflict(r) }); ok {
-					e = x
+				needHave := len(tg) > 0 && hasRel && !relInParams && typeTable[relArg].isRel && !(paramHasRel)
+				comp := []int{tX0 + rng.Intn(3)}
+				if needHave {
+					comp = append(comp, relArg)
 				}
+				e = p.pickOrCreate(func(r *rec) bool {
+					return hasNone(r, params) && noConflict(r) && (!needHave || r.has[relArg])
+				}, comp)
 			}
 			if op == "Add" {
 				ra := try(func() { ma.Add(e, tg...) })
@@ -240,11 +262,13 @@ func mapSection(h *H, rng *rand.Rand, n, variant int) {
 		case "Remove":
 			e := p.pickEntityArg()
 			if rng.Intn(5) > 0 {
-				if x, ok := p.pickWhere(func(r *rec) bool {
-					return hasAll(r, params) && (len(tg) == 0 || !hasRel || contains(params, relArg) || r.has[relArg])
-				}); ok {
-					e = x
+				comp := append([]int{}, params...)
+				if len(tg) > 0 && hasRel && !relInParams && typeTable[relArg].isRel && !paramHasRel {
+					comp = append(comp, relArg)
 				}
+				e = p.pickOrCreate(func(r *rec) bool {
+					return hasAll(r, params) && (len(tg) == 0 || !hasRel || relInParams || r.has[relArg])
+				}, comp)
 			}
 			ra := try(func() { ma.Remove(e, tg...) })
 			rb := try(func() {
@@ -288,7 +312,7 @@ func mapSection(h *H, rng *rand.Rand, n, variant int) {
 				}
 			} else {
 				incl = append(incl, params...)
-				if len(tg) > 0 && hasRel && !contains(params, relArg) && rng.Intn(4) > 0 {
+				if hasRel && typeTable[relArg].isRel && !paramHasRel && (len(tg) > 0 || rng.Intn(2) == 0) && rng.Intn(4) > 0 {
 					incl = append(incl, relArg)
 				}
 				if rng.Intn(3) == 0 {
